@@ -9,8 +9,8 @@ from . import common as cm
 def WIDE():
     return [
         plate("P", 2, 3, 0, 1e6, [[1000, 1001, 1002], [1003, 1004, 1005]]),
-        plate("Q", 3, 2, 0, 1e6, 500),
-        trough("T", 3, 2, 0, 1e6, [4000, 5000]),
+        dict(plate("Q", 3, 2, 0, 1e6, [[500, 500], [500, 500], [500, 500]]), np="float32"),
+        dict(trough("T", 3, 2, 0, 1e6, [4000, 5000]), np="int64"),
         trough("U", 1, 3, 0, 1e6, [300, 0, 200]),
     ]
 
@@ -105,7 +105,9 @@ def volume_args(k, shape2d, base, zero=False):
     return out
 
 
-def all_events(config, full):
+def all_events(config, full, thin=False):
+    """full alphabet; thin=True keeps every third shape/volume/operation combination (used from non-initial
+    states in the quick tier; the initial states always get the complete alphabet)"""
     ev = []
     tight = config["set"] == "TIGHT"
     for spec in config["labware"]:
@@ -116,10 +118,20 @@ def all_events(config, full):
                     is_core = (si + vi + oi) % 7 == 0 and lab in ("column", "repeat", "block-2d", "alias-pair", "scalar", "reversed")
                     if not full and not is_core:
                         continue
+                    if full and thin and not is_core and (si + 2 * vi + oi) % 3:
+                        continue
                     if op in ("add", "remove"):
                         ev.append([op, n, wells, vols, {}])
                     else:
                         ev.append([op, "e" if (si + oi) % 2 else "f", n, wells, vols, {}])
+    # volumes that need more than 24 bits next to the well contents (exact in double precision only)
+    for spec in config["labware"]:
+        if spec.get("np") and (full or spec["name"] == "Q"):
+            n = spec["name"]
+            w0 = "A01"
+            for op in ("add", "remove"):
+                ev.append([op, n, [w0, w0], [2.0**-20, 2.0**-18], {}])
+            ev.append(["dispense", "e", n, w0, 2.0**-20 + 2.0**-21, {}])
     return ev
 
 
@@ -158,13 +170,15 @@ class Harness(cm.BaseA):
         return all_events(config, False)
 
     def full_events(self, W, config):
-        return all_events(config, True) + transfers(config)
+        thin = self.tier == "quick" and len(W.get("path", [])) + W.get("n", 0) > 0
+        return all_events(config, True, thin) + transfers(config)
 
     def canon(self, W, config):
         return b"|".join(lw._volumes.tobytes() for _, lw in sorted(W["lw"].items()))
 
     def step(self, W, ev, config):
         op = ev[0]
+        W["n"] = W.get("n", 0) + 1
         if config["set"] == "SHARED":
             # memory shared between live arrays does not survive pickling: rebuild fresh objects and
             # replay the history so that aliasing between labware (or with the caller's array) stays visible
@@ -200,7 +214,7 @@ class Harness(cm.BaseA):
                 V.append(("C04/frame", f"{op} on {lw} changed the caller's initial_volumes array '{k}'"))
         addressed = {c for c, _ in pairs}
         for c in led[lw]:
-            if c not in addressed and post[lw][c].hex() != pre[lw][c].hex():
+            if c not in addressed and float(post[lw][c]).hex() != float(pre[lw][c]).hex():
                 V.append(("C04/frame", f"{op} on {lw}: unaddressed well {well_id(*c)} changed {pre[lw][c]!r} -> {post[lw][c]!r}"))
         if out == "ok":
             for c, v in pairs:
